@@ -63,7 +63,8 @@ def finish(prop, src, sid, patch, meta, ran, tier):
     ran["repo_commit"] = sh("git -C /repo log --format=%h -1")[1].strip()
     try:
         t = time.time()
-        rc, out = sh("./check %s --tier %s" % (prop, tier), cwd="/verif", timeout=7200)
+        env = dict(os.environ, VERIF_FAILFAST="1") if "--failfast" in sys.argv else None
+        rc, out = sh("./check %s --tier %s" % (prop, tier), cwd="/verif", env=env, timeout=7200)
         ran["check_cmd"] = "./check %s --tier %s" % (prop, tier)
         ran["check_exit"] = rc
         ran["check_wall_s"] = round(time.time() - t, 1)
